@@ -3,7 +3,14 @@
 (* Go-level semantics of defer / panic / recover (the Go specification,     *)
 (* "Defer statements", "Handling panics", and the run-time rule that a      *)
 (* recover() stops a panic only when called DIRECTLY by a deferred function *)
-(* that is being run by that panic's unwinding).                            *)
+(* that is being run by that panic's unwinding), with                       *)
+(*   - an environment action: the injected compiled hook ev() may panic at  *)
+(*     its faultAt-th call (fault injection, property C12);                 *)
+(*   - an implementation-level annotation: gomacro's single                 *)
+(*     Run.PanicFun slot and its recover test (IsDefer /\ PanicFun # nil /\ *)
+(*     DeferOfFun = PanicFun, fast/builtin.go callRecover; fast/code.go     *)
+(*     rundefer / pushDefer / maybeRepanic), checked by TLC to agree with   *)
+(*     the Go rule whenever at most one panic is in flight.                 *)
 (*                                                                          *)
 (* A behaviour is a PROGRAM together with its unique execution: function    *)
 (* bodies are state (`body`) and grow by lazy revelation exactly when       *)
@@ -21,11 +28,19 @@
 (*   deferclo g  defer func() { res += 10 * fg() }()    (fg one call deeper)*)
 (*   deferrec v  defer func() { r := recover(); ev("R", I, pc, r);          *)
 (*                              if r != nil { res = v } }()                 *)
+(*   deferev     defer ev("D", I, pc)           (deferred COMPILED function) *)
 (*   rec         ev("R", I, pc, recover())      (direct call in fI's body)  *)
 (*   panic v     panic(<value v>)                                           *)
 (*   set v       res = v                                                    *)
 (*   ret v       return v                                                   *)
 (*   spin        a counted loop of 100 trivial statements (executor phase 2)*)
+(* Every event carries two observations of the executor's bookkeeping at    *)
+(* the time of the ev() call: whether the running function is a deferred    *)
+(* call (ExecFlags.IsDefer) and the call depth (Run.CurrEnv.CallDepth).     *)
+(* The depth is only predicted until the first panic of the evaluation: a   *)
+(* frame abandoned by a panic restores Run.CurrEnv only if it runs on the   *)
+(* executor's slow path, which depends on code not yet revealed (0 = not    *)
+(* predicted).                                                              *)
 (***************************************************************************)
 EXTENDS Naturals, Sequences, FiniteSets, TLC, Json
 
@@ -34,13 +49,21 @@ CONSTANTS NF,         \* number of functions
           MaxTotal,   \* maximum operations in the whole program
           PanicVals,  \* values that may be panicked with
           OpKinds,    \* enabled operation kinds
+          MaxFault,   \* the hook may panic at its k-th call, k in 1..MaxFault (0: never)
+          ImplChecksDeferOf, \* TRUE: the code's test DeferOfFun = PanicFun. FALSE: broken variant
           EmitOn
 
 VARIABLES body, closed, st, pans, log, outcome,
-          maxp   \* history: largest number of panics in flight at the same time
+          maxp,      \* history: largest number of panics in flight at the same time
+          faultAt,   \* 0, or the index of the ev() call at which the hook panics
+          nev,       \* number of ev() calls made so far
+          fid,       \* frame id counter
+          panicFun,  \* implementation: id of the frame stored in Run.PanicFun, 0 = nil
+          disagree   \* history: the implementation-level test differed from the Go rule
 
-vars == <<body, closed, st, pans, log, outcome, maxp>>
+vars == <<body, closed, st, pans, log, outcome, maxp, faultAt, nev, fid, panicFun, disagree>>
 
+FaultVal == 9
 Funs == 0..(NF - 1)
 
 TotalOps == LET RECURSIVE Sum(_)
@@ -52,6 +75,7 @@ OpsFor(f) ==
     (IF "L" \in OpKinds THEN {[k |-> "L"]} ELSE {})
     \cup (IF "rec" \in OpKinds THEN {[k |-> "rec"]} ELSE {})
     \cup (IF "spin" \in OpKinds THEN {[k |-> "spin"]} ELSE {})
+    \cup (IF "deferev" \in OpKinds THEN {[k |-> "deferev"]} ELSE {})
     \cup (IF "set" \in OpKinds THEN {[k |-> "set", v |-> 5]} ELSE {})
     \cup (IF "ret" \in OpKinds THEN {[k |-> "ret", v |-> 6]} ELSE {})
     \cup (IF "deferrec" \in OpKinds THEN {[k |-> "deferrec", v |-> 7]} ELSE {})
@@ -63,36 +87,61 @@ OpsFor(f) ==
 \* kind "fn":  fn, pc, defs, res, direct (invoked as the deferred call itself),
 \*             runner (index in `pans` of the panic whose unwinding started this
 \*             deferred call, 0 if none), mode in {"run","exit","panic"},
-\*             onret in {"top","log","drop","clo"}
+\*             onret in {"top","log","drop","clo"}, id
 \* kind "clo": the closure of `deferclo g`: g, runner, pc (1: call fg, 2: add), acc
 FnFrame(f, direct, runner, onret) ==
     [kind |-> "fn", fn |-> f, pc |-> 1, defs |-> <<>>, res |-> 0, direct |-> direct,
-     runner |-> runner, mode |-> "run", onret |-> onret, acc |-> 0]
+     runner |-> runner, mode |-> "run", onret |-> onret, acc |-> 0, id |-> fid]
 CloFrame(g, runner) ==
     [kind |-> "clo", fn |-> g, pc |-> 1, defs |-> <<>>, res |-> 0, direct |-> FALSE,
-     runner |-> runner, mode |-> "run", onret |-> "drop", acc |-> 0]
+     runner |-> runner, mode |-> "run", onret |-> "drop", acc |-> 0, id |-> fid]
 
 Top == st[Len(st)]
 SetTop(f) == [st EXCEPT ![Len(st)] = f]
 Pop == SubSeq(st, 1, Len(st) - 1)
-Push(f) == Append(st, f)
-Evt(e) == log' = Append(log, e)
 
 RemoveAt(s, i) == SubSeq(s, 1, i - 1) \o SubSeq(s, i + 1, Len(s))
+
+\* ExecFlags.IsDefer while frame T runs: T was started as a deferred call
+IsDeferFrame(T) == T.direct \/ T.kind = "clo"
 
 \* recover() called directly in the body of frame T: effective iff T is the deferred call
 \* itself and was started by the unwinding of the current (top, not yet recovered) panic.
 Eligible(T) == /\ T.direct /\ T.runner > 0 /\ T.runner = Len(pans)
                /\ ~pans[T.runner].recovered
 
+\* the implementation's test (callRecover) for the top frame T; DeferOfFun is the frame
+\* that deferred the innermost running deferred call = the frame just below T when T is one
+ImplEligible(T) == /\ IsDeferFrame(T) /\ T.direct
+                   /\ panicFun # 0
+                   /\ (ImplChecksDeferOf => st[Len(st) - 1].id = panicFun)
+
 ----------------------------------------------------------------------------
+\* one ev() call made by the code of the top frame.
+\*   e: the event; sOk/pOk: stack and panics after the step when the hook returns;
+\*   sF/pF: stack (its top frame is the one calling ev) and panics when the hook panics
+Fires == faultAt > 0 /\ nev + 1 = faultAt
+EvCall2(e, sOk, pOk, sF, pF) ==
+    /\ nev' = nev + 1
+    /\ IF Fires
+       THEN /\ log' = log
+            /\ pans' = Append(pF, [val |-> FaultVal, recovered |-> FALSE])
+            /\ st' = [sF EXCEPT ![Len(sF)].mode = "panic"]
+       ELSE /\ log' = Append(log, e) /\ pans' = pOk /\ st' = sOk
+EvCall(e, s, p) == EvCall2(e, s, p, s, p)
+
 Init == /\ body = [f \in Funs |-> <<>>]
         /\ closed = [f \in Funs |-> FALSE]
-        /\ st = <<FnFrame(0, FALSE, 0, "top")>>
+        /\ fid = 2
+        /\ st = <<[FnFrame(0, FALSE, 0, "top") EXCEPT !.id = 1]>>
         /\ pans = <<>>
         /\ log = <<>>
         /\ outcome = <<>>
         /\ maxp = 0
+        /\ faultAt \in 0..MaxFault
+        /\ nev = 0
+        /\ panicFun = 0
+        /\ disagree = FALSE
 
 Running == outcome = <<>> /\ st # <<>>
 
@@ -106,50 +155,61 @@ Reveal ==
              /\ UNCHANGED closed
           \/ /\ closed' = [closed EXCEPT ![f] = TRUE]
              /\ UNCHANGED body
-    /\ UNCHANGED <<st, pans, log, outcome>>
+    /\ UNCHANGED <<st, pans, log, outcome, nev, fid, panicFun, disagree>>
 
 \* execute one operation of the running function
 ExecOp ==
     /\ Running /\ Top.kind = "fn" /\ Top.mode = "run"
     /\ LET T == Top
            f == T.fn
+           isd == IsDeferFrame(T)
+           dep == IF maxp = 0 THEN Len(st) ELSE 0
        IN /\ T.pc <= Len(body[f])
           /\ LET op == body[f][T.pc]
                  T1 == [T EXCEPT !.pc = @ + 1]
              IN CASE op.k = "L" ->
-                       /\ Evt(<<"L", f, T.pc>>) /\ st' = SetTop(T1) /\ UNCHANGED pans
+                       /\ EvCall(<<"L", f, T.pc, isd, dep>>, SetTop(T1), pans)
+                       /\ UNCHANGED <<fid, panicFun, disagree>>
                   [] op.k = "spin" ->
-                       /\ st' = SetTop(T1) /\ UNCHANGED <<pans, log>>
+                       /\ st' = SetTop(T1) /\ UNCHANGED <<pans, log, nev, fid, panicFun, disagree>>
                   [] op.k = "set" ->
-                       /\ st' = SetTop([T1 EXCEPT !.res = op.v]) /\ UNCHANGED <<pans, log>>
+                       /\ st' = SetTop([T1 EXCEPT !.res = op.v])
+                       /\ UNCHANGED <<pans, log, nev, fid, panicFun, disagree>>
                   [] op.k = "ret" ->
                        /\ st' = SetTop([T1 EXCEPT !.res = op.v, !.mode = "exit"])
-                       /\ UNCHANGED <<pans, log>>
+                       /\ UNCHANGED <<pans, log, nev, fid, panicFun, disagree>>
                   [] op.k = "call" ->
                        /\ st' = Append(SetTop(T1), FnFrame(op.g, FALSE, 0, "log"))
-                       /\ UNCHANGED <<pans, log>>
+                       /\ fid' = fid + 1
+                       /\ UNCHANGED <<pans, log, nev, panicFun, disagree>>
                   [] op.k = "defer" ->
                        /\ st' = SetTop([T1 EXCEPT !.defs = Append(@, [t |-> "fn", g |-> op.g])])
-                       /\ UNCHANGED <<pans, log>>
+                       /\ UNCHANGED <<pans, log, nev, fid, panicFun, disagree>>
                   [] op.k = "deferloop" ->
                        /\ st' = SetTop([T1 EXCEPT !.defs = @ \o <<[t |-> "fn", g |-> op.g], [t |-> "fn", g |-> op.g]>>])
-                       /\ UNCHANGED <<pans, log>>
+                       /\ UNCHANGED <<pans, log, nev, fid, panicFun, disagree>>
                   [] op.k = "deferclo" ->
                        /\ st' = SetTop([T1 EXCEPT !.defs = Append(@, [t |-> "clo", g |-> op.g])])
-                       /\ UNCHANGED <<pans, log>>
+                       /\ UNCHANGED <<pans, log, nev, fid, panicFun, disagree>>
                   [] op.k = "deferrec" ->
                        /\ st' = SetTop([T1 EXCEPT !.defs = Append(@, [t |-> "rec", v |-> op.v, f |-> f, pc |-> T.pc])])
-                       /\ UNCHANGED <<pans, log>>
+                       /\ UNCHANGED <<pans, log, nev, fid, panicFun, disagree>>
+                  [] op.k = "deferev" ->
+                       /\ st' = SetTop([T1 EXCEPT !.defs = Append(@, [t |-> "ev", f |-> f, pc |-> T.pc])])
+                       /\ UNCHANGED <<pans, log, nev, fid, panicFun, disagree>>
                   [] op.k = "rec" ->
-                       IF Eligible(T)
-                       THEN /\ Evt(<<"R", f, T.pc, pans[T.runner].val>>)
-                            /\ pans' = [pans EXCEPT ![T.runner].recovered = TRUE]
-                            /\ st' = SetTop(T1)
-                       ELSE /\ Evt(<<"R", f, T.pc, 0>>) /\ st' = SetTop(T1) /\ UNCHANGED pans
+                       LET go == Eligible(T)
+                           impl == ImplEligible(T)
+                           val == IF go THEN pans[T.runner].val ELSE 0
+                           p1 == IF go THEN [pans EXCEPT ![T.runner].recovered = TRUE] ELSE pans
+                       IN /\ EvCall(<<"R", f, T.pc, val, isd, dep>>, SetTop(T1), p1)
+                          /\ panicFun' = IF impl THEN 0 ELSE panicFun
+                          /\ disagree' = (disagree \/ (go # impl))
+                          /\ UNCHANGED fid
                   [] op.k = "panic" ->
                        /\ pans' = Append(pans, [val |-> op.v, recovered |-> FALSE])
                        /\ st' = SetTop([T1 EXCEPT !.mode = "panic"])
-                       /\ UNCHANGED log
+                       /\ UNCHANGED <<log, nev, fid, panicFun, disagree>>
     /\ UNCHANGED <<body, closed, outcome>>
 
 \* the body is finished (closed or full): start running deferred calls normally
@@ -159,25 +219,28 @@ EndBody ==
     /\ (closed[Top.fn] \/ Len(body[Top.fn]) = MaxOps \/ TotalOps >= MaxTotal)
     /\ st' = SetTop([Top EXCEPT !.mode = "exit"])
     /\ closed' = [closed EXCEPT ![Top.fn] = TRUE]
-    /\ UNCHANGED <<body, pans, log, outcome>>
+    /\ UNCHANGED <<body, pans, log, outcome, nev, fid, panicFun, disagree>>
 
 \* a deferred call started with `runner` has returned normally; s = stack whose top is the
 \* deferred frame itself. If its panic was recovered the deferring frame goes on normally.
+\* (rundefer: `if panicking { panicking = maybeRepanic(run) }` tests PanicFun # nil.)
 AfterDeferred(runner, s) ==
     LET n == Len(s)
         rest == SubSeq(s, 1, n - 1)
-    IN IF runner > 0 /\ pans[runner].recovered
-       THEN /\ pans' = SubSeq(pans, 1, runner - 1)
-            /\ st' = [rest EXCEPT ![n - 1].mode = "exit"]
-            /\ UNCHANGED log
-       ELSE /\ st' = rest /\ UNCHANGED <<pans, log>>
+    IN /\ IF runner > 0 /\ pans[runner].recovered
+          THEN /\ pans' = SubSeq(pans, 1, runner - 1)
+               /\ st' = [rest EXCEPT ![n - 1].mode = "exit"]
+          ELSE /\ st' = rest /\ UNCHANGED pans
+       /\ disagree' = (disagree \/ (runner > 0 /\ (pans[runner].recovered # (panicFun = 0))))
+       /\ UNCHANGED <<log, nev, fid, panicFun>>
 
 \* the closure of `deferclo g`
 CloStep ==
     /\ Running /\ Top.kind = "clo" /\ Top.mode = "run"
     /\ IF Top.pc = 1
        THEN /\ st' = Append(SetTop([Top EXCEPT !.pc = 2]), FnFrame(Top.fn, FALSE, 0, "clo"))
-            /\ UNCHANGED <<pans, log>>
+            /\ fid' = fid + 1
+            /\ UNCHANGED <<pans, log, nev, panicFun, disagree>>
        ELSE \* res += 10 * acc in the deferring frame, then return
             /\ LET n == Len(st)
                    below == [st[n - 1] EXCEPT !.res = @ + 10 * Top.acc]
@@ -191,20 +254,38 @@ RunDeferred ==
            d == T.defs[Len(T.defs)]
            T1 == [T EXCEPT !.defs = SubSeq(@, 1, Len(@) - 1)]
            runner == IF T.mode = "panic" THEN Len(pans) ELSE 0
+           pf1 == IF T.mode = "panic" THEN T.id ELSE panicFun   \* pushDefer(run, funenv, panicking)
        IN CASE d.t = "fn" ->
                  /\ st' = Append(SetTop(T1), FnFrame(d.g, TRUE, runner, "drop"))
-                 /\ UNCHANGED <<pans, log>>
+                 /\ fid' = fid + 1 /\ panicFun' = pf1
+                 /\ UNCHANGED <<pans, log, nev, disagree>>
             [] d.t = "clo" ->
                  /\ st' = Append(SetTop(T1), CloFrame(d.g, runner))
-                 /\ UNCHANGED <<pans, log>>
+                 /\ fid' = fid + 1 /\ panicFun' = pf1
+                 /\ UNCHANGED <<pans, log, nev, disagree>>
+            [] d.t = "ev" ->
+                 \* a deferred compiled function: no interpreted frame. If the hook panics while
+                 \* the deferring frame is being unwound, the new panic replaces (aborts) the old one
+                 /\ EvCall2(<<"D", d.f, d.pc, IsDeferFrame(T), 0>>, SetTop(T1), pans,
+                            SetTop(T1), IF T.mode = "panic" THEN SubSeq(pans, 1, Len(pans) - 1) ELSE pans)
+                 /\ panicFun' = pf1
+                 /\ UNCHANGED <<fid, disagree>>
             [] d.t = "rec" ->
-                 IF runner > 0
-                 THEN \* direct recover in a deferred closure run by the panic: stops it
-                      /\ Evt(<<"R", d.f, d.pc, pans[runner].val>>)
-                      /\ pans' = SubSeq(pans, 1, runner - 1)
-                      /\ st' = SetTop([T1 EXCEPT !.res = d.v, !.mode = "exit"])
-                 ELSE /\ Evt(<<"R", d.f, d.pc, 0>>)
-                      /\ st' = SetTop(T1) /\ UNCHANGED pans
+                 \* the closure runs atomically: r := recover(); ev("R", ...); if r != nil { res = v }
+                 LET go == runner > 0
+                     impl == pf1 # 0 /\ (ImplChecksDeferOf => pf1 = T.id)
+                     pf2 == IF impl THEN 0 ELSE pf1
+                 IN /\ IF go
+                       THEN \* direct recover in a deferred closure run by the panic: stops it
+                            EvCall2(<<"R", d.f, d.pc, pans[runner].val, TRUE, 0>>,
+                                    SetTop([T1 EXCEPT !.res = d.v, !.mode = "exit"]),
+                                    SubSeq(pans, 1, runner - 1),
+                                    SetTop(T1), SubSeq(pans, 1, runner - 1))
+                       ELSE EvCall(<<"R", d.f, d.pc, 0, TRUE, IF maxp = 0 THEN Len(st) + 1 ELSE 0>>, SetTop(T1), pans)
+                    /\ panicFun' = pf2
+                    \* rundefer then tests PanicFun # nil to decide whether to re-panic
+                    /\ disagree' = (disagree \/ (go # impl))
+                    /\ UNCHANGED fid
     /\ UNCHANGED <<body, closed, outcome>>
 
 \* normal return of a function frame whose deferred calls are done
@@ -213,11 +294,14 @@ Return ==
     /\ LET T == Top
            n == Len(st)
        IN CASE T.onret = "top" ->
-                 /\ outcome' = <<"done", T.res>> /\ st' = <<>> /\ UNCHANGED <<pans, log>>
+                 /\ outcome' = <<"done", T.res>> /\ st' = <<>>
+                 /\ UNCHANGED <<pans, log, nev, fid, panicFun, disagree>>
             [] T.onret = "log" ->
-                 /\ Evt(<<"ret", T.fn, T.res>>) /\ st' = Pop /\ UNCHANGED <<pans, outcome>>
+                 /\ EvCall(<<"ret", T.fn, T.res, IsDeferFrame(st[n - 1]), IF maxp = 0 THEN n - 1 ELSE 0>>, Pop, pans)
+                 /\ UNCHANGED <<outcome, fid, panicFun, disagree>>
             [] T.onret = "clo" ->
-                 /\ st' = [Pop EXCEPT ![n - 1].acc = T.res] /\ UNCHANGED <<pans, log, outcome>>
+                 /\ st' = [Pop EXCEPT ![n - 1].acc = T.res]
+                 /\ UNCHANGED <<pans, log, outcome, nev, fid, panicFun, disagree>>
             [] T.onret = "drop" ->
                  /\ AfterDeferred(T.runner, st) /\ UNCHANGED outcome
     /\ UNCHANGED <<body, closed>>
@@ -233,12 +317,12 @@ Unwind ==
           /\ IF n = 1
              THEN /\ outcome' = <<"escape", pans[Len(pans)].val>> /\ st' = <<>>
              ELSE /\ st' = [Pop EXCEPT ![n - 1].mode = "panic"] /\ UNCHANGED outcome
-    /\ UNCHANGED <<body, closed, log>>
+    /\ UNCHANGED <<body, closed, log, nev, fid, panicFun, disagree>>
 
-\* a panic raised inside the function called by a `deferclo` closure reaches the closure
-\* frame in mode "run": closures have no deferred calls of their own
 Step == Reveal \/ ExecOp \/ EndBody \/ CloStep \/ RunDeferred \/ Return \/ Unwind
-Next == Step /\ maxp' = IF Len(pans') > maxp THEN Len(pans') ELSE maxp
+Next == /\ Step
+        /\ maxp' = IF Len(pans') > maxp THEN Len(pans') ELSE maxp
+        /\ UNCHANGED faultAt
 
 Spec == Init /\ [][Next]_vars
 
@@ -246,7 +330,7 @@ Spec == Init /\ [][Next]_vars
 (* Properties of the semantics itself, checked by TLC (M) *)
 
 TypeOK == /\ \A i \in 1..Len(st) : st[i].mode \in {"run", "exit", "panic"}
-          /\ \A i \in 1..Len(pans) : pans[i].val \in PanicVals
+          /\ \A i \in 1..Len(pans) : pans[i].val \in PanicVals \cup {FaultVal}
 
 \* a frame is unwound by a panic only while a panic is active
 PanicModeHasPanic == \A i \in 1..Len(st) : st[i].mode = "panic" => pans # <<>>
@@ -261,9 +345,15 @@ DoneClean == outcome # <<>> =>
                /\ (outcome[1] = "done" => pans = <<>>)
                /\ (outcome[1] = "escape" => pans # <<>> /\ ~pans[Len(pans)].recovered)
 
-\* recover() that is not made directly by a deferred function returns nil: every
-\* successful recovery is logged from a frame that is a direct deferred call
+\* gomacro's single-slot protocol decides recover() and re-panic exactly as Go does as long
+\* as no panic is raised while another one is in flight
+ImplAgrees == disagree => maxp >= 2
+
+\* the hook can only fire once, and only if it was armed
+FaultOnce == faultAt = 0 => \A i \in 1..Len(pans) : pans[i].val # FaultVal
+
 Emit == IF EmitOn /\ outcome # <<>>
-        THEN PrintT(ToJson([body |-> body, log |-> log, outcome |-> outcome, maxp |-> maxp]))
+        THEN PrintT(ToJson([body |-> body, log |-> log, outcome |-> outcome, maxp |-> maxp,
+                            fault |-> faultAt, nev |-> nev, disagree |-> disagree]))
         ELSE TRUE
 =============================================================================
